@@ -125,9 +125,18 @@ def location(project, source, position, filename=None, debug=False):
         # positions come from the text with the cursor marker spliced in: what
         # follows the cursor on its own line sits further right there than in the buffer
         l, c = name.declared_at
-        if l == ln and c > col and name.filename == source.filename:
+        if l == ln and c > col and in_marked_text(name):
             c -= len(SOURCE_MARK)
         return _loc((l, c), name.filename)
+
+    def in_marked_text(name):
+        # the file being edited can also be reached through the imports of
+        # another module: that analysis comes from the disk, without a marker
+        obj = getattr(name, 'value', name)
+        top = getattr(getattr(obj, 'scope', None), 'top', None) or getattr(obj, 'top', None)
+        if top is not None:
+            return top is scope
+        return name.filename == source.filename
 
     locs = []
     for r in result:
